@@ -58,3 +58,24 @@ impl<F: linfa::Float, D: linfa_nn::distance::Distance<F>> linfa_nn::distance::Di
         self.0.dist_to_rdist(dist)
     }
 }
+
+/// MXCSR on x86-64 (rounding control, FTZ, DAZ, exception masks; the sticky exception FLAGS in
+/// the low six bits are masked out - every inexact operation sets them), FPCR on aarch64.
+pub fn fp_control_state() -> u64 {
+    #[cfg(target_arch = "x86_64")]
+    {
+        let mut v: u32 = 0;
+        unsafe { std::arch::asm!("stmxcsr [{}]", in(reg) &mut v, options(nostack)) };
+        (v & !0x3f) as u64
+    }
+    #[cfg(target_arch = "aarch64")]
+    {
+        let v: u64;
+        unsafe { std::arch::asm!("mrs {}, fpcr", out(reg) v, options(nomem, nostack)) };
+        v
+    }
+    #[cfg(not(any(target_arch = "x86_64", target_arch = "aarch64")))]
+    {
+        0
+    }
+}
